@@ -27,10 +27,11 @@ THEOREMS = [
 
 PER_CELL = ("imp", "vol", "u", "lat", "fill")
 
-# how many words of one affected input an edit may change (own number, a reference, a value with its key)
+# how many words of one affected input an edit may change (own number, a reference, a value with its key;
+# an importance edit on a shared entry `imp:n,p=1` has to split it into `imp:p=1 imp:n=x`: key and value of both)
 BUDGET = {
     "cell_number": 1, "surface_number": 1, "material_number": 1, "transform_number": 1, "universe_number": 2,
-    "importance": 2, "importance_all": 4, "volume": 2, "atom_density": 1, "mass_density": 1,
+    "importance": 6, "importance_all": 10, "volume": 2, "atom_density": 1, "mass_density": 1,
     "surface_constant": 1, "location": 1, "radius": 1, "fraction": 1, "displacement": 1,
 }
 
@@ -46,7 +47,7 @@ def run_case(case):
             p0 = wholefile.read_text(text, limit, sc)
             w0 = wholefile.write_text(p0, sc, "w0.imcnp")
             p1 = wholefile.read_text(text, limit, sc, "in1.imcnp")
-            owners = wholefile.object_lines(p1)["data_owner"]
+            owners = wholefile.object_lines(wholefile.read_text(text, limit, sc, "in2.imcnp"))["data_owner"]
         except Exception as e:  # noqa: BLE001
             return {"skip": type(e).__name__ + ": " + str(e)[:100]}
         rng = random.Random(case["seed"])
@@ -84,23 +85,29 @@ def _digits(w):
     return (m.group(1), int(m.group(2)), m.group(3)) if m else None
 
 
+def _explained(x, y, renum):
+    dx, dy = _digits(x), _digits(y)
+    return bool(dx and dy and dx[0] == dy[0] and dx[2] == dy[2] and any(dx[1] == o and dy[1] == nw for o, nw in renum))
+
+
 def _ndiff(a, b, renum=()):
     """number of differing words that a renumbering old->new of a referenced object does not explain
-    (positional when lengths agree, else by multiset difference)"""
-    if len(a) == len(b):
-        n = 0
-        for x, y in zip(a, b):
-            if x == y:
-                continue
-            dx, dy = _digits(x), _digits(y)
-            if dx and dy and dx[0] == dy[0] and dx[2] == dy[2] and any(dx[1] == o and dy[1] == nw for o, nw in renum):
-                continue
-            n += 1
-        return n
-    from collections import Counter
+    (aligned with difflib; inserted and deleted words count one each)"""
+    import difflib
 
-    ca, cb = Counter(a), Counter(b)
-    return max(sum((ca - cb).values()), sum((cb - ca).values()))
+    positional = None
+    if len(a) == len(b):
+        positional = sum(1 for x, y in zip(a, b) if x != y and not _explained(x, y, renum))
+    n = 0
+    for tag, i1, i2, j1, j2 in difflib.SequenceMatcher(a=a, b=b, autojunk=False).get_opcodes():
+        if tag == "equal":
+            continue
+        xs, ys = a[i1:i2], b[j1:j2]
+        if tag == "replace" and len(xs) == len(ys):
+            n += sum(1 for x, y in zip(xs, ys) if not _explained(x, y, renum))
+        else:
+            n += max(len(xs), len(ys))
+    return n if positional is None else min(n, positional)
 
 
 def judge(case, r, cards):
@@ -214,6 +221,8 @@ def run(chk):
     ]
     chk.trusted_base = ["Lean 4.33.0 kernel", "Spec/File.lean", "harness tools/props/c07.py, tools/vlib/edits.py"]
     leanio.prove(chk, "MontePyVerif.Props.C07", THEOREMS, "MontePyVerif")
+    if chk.thorough:
+        leanio.leanchecker(chk, ["MontePyVerif.Props.C07"])
     cases = gen_cases(chk)
     results = pmap(run_case, cases, chunksize=2)
     cards = _cards_for(results, cases)
